@@ -100,7 +100,13 @@ CLAIMED = {
        'operation = a list of atomic file-system effects: temp-file creation, chunk writes, rename, unlink; the process may die after any prefix): '
        'a meta update cut anywhere leaves the old or the new meta and the envelope untouched; an operation on another message (writes, removals, '
        'orphan and temp files included) cut anywhere, and any interleaving of such effects, never changes what is recovered for a message; a write is '
-       'visible only complete; a removal in progress hides the message at once. Tied to the code by interposing os.rename/os.remove/mkstemp/chunk '
+       'visible only complete; a removal in progress hides the message at once. Over histories: acknowledged_message_survives (once the write '
+       'of a message has completed, after ANY number of completed further operations - anything about other messages; due times, attempt '
+       'counters, delivered marks of this one - and with the process dying n effects into yet another one, for every n, a fresh DiskStorage '
+       'recovers the message with the envelope that was written and a meta that is exactly what the completed operations made of it, or that '
+       'with the interrupted operation applied too); metaAfter_attempts (the recovered attempt counter counts exactly the completed increments); restarted_queue_schedules_acknowledged (C04 o C12: a queue '
+       'started on what a fresh DiskStorage loads from the directories after the crash finds the message, its announcement is a step of the scheduler '
+       'model of C12, and after it the message is known, stored and in the timetable with the loop due to wake). Tied to the code by interposing os.rename/os.remove/mkstemp/chunk '
        'writes of the real DiskStorage (real pyaio), copying the directories at EVERY effect boundary of every operation (also with two operations '
        'running concurrently) and reopening each copy with a fresh DiskStorage (load + get), compared with the model and monitored directly.',
   ref='6/C04', technique='Lean 4 proof (file-system effect prefixes, frame lemmas) + crash-point enumeration of the real DiskStorage vs the model',
